@@ -595,6 +595,7 @@ run_case(const Case &c, const vsched::Config &cfg, Outcome &out, int *phase_out)
     specs[t].body = [&w, t] { w[t].body(static_cast<int>(t)); };
   }
   vsched::run(specs, c.sched, cfg);
+  for (int t = 0; t < kMaxT; t++) ctx.out.lsteps[t] = vsched::stats().lsteps[t];
 
   // phase 2: the ID table must be empty again: `capacity` fresh threads all obtain an ID
   ctx.phase = 2;
